@@ -519,6 +519,9 @@ class Server(base_server.BaseServer):
 
     def _handle_connect(self, eio_sid, namespace, data):
         """Handle a client connection request."""
+        if eio_sid not in self.environ:
+            # the Engine.IO connection has already ended
+            return
         namespace = namespace or '/'
         sid = None
         if namespace != '*' and (
@@ -669,7 +672,11 @@ class Server(base_server.BaseServer):
                 self._handle_ack(eio_sid, pkt.namespace, pkt.id, pkt.data)
             elif pkt.packet_type == packet.BINARY_EVENT or \
                     pkt.packet_type == packet.BINARY_ACK:
-                self._binary_packet[eio_sid] = pkt
+                if eio_sid in self.environ or any(
+                        self.manager.sid_from_eio_sid(eio_sid, n)
+                        for n in self.manager.get_namespaces()):
+                    # (nothing is kept for a connection that has ended)
+                    self._binary_packet[eio_sid] = pkt
             elif pkt.packet_type == packet.CONNECT_ERROR:
                 raise ValueError('Unexpected CONNECT_ERROR packet.')
             else:
